@@ -385,6 +385,7 @@ class Gen:
         self.gates = gates
         self.max_depth = max_depth
         self.max_stmts = max_stmts
+        self.empty_blocks = False
 
     def program(self):
         r = self.r
@@ -534,6 +535,9 @@ class Gen:
         out = []
         for _ in range(r.randrange(1, self.max_stmts + 1)):
             x = r.random()
+            if self.empty_blocks and depth >= 1 and r.random() < 0.08:
+                out.append(("par", []) if kind == "seq" else ("seq", []))
+                continue
             if depth < self.max_depth and x < 0.2 and self.o["use_loops"] and kind == "seq":
                 cnt = r.choice([0, 1, 2, 3]) if not self.o["use_lets"] else r.choice([0, 1, 2, "k1"])
                 out.append(("loop", cnt, self.stmts(depth + 1, params, in_macro)))
